@@ -70,16 +70,17 @@ InitBedVcf(r) == \E px \in Pfxs, g \in Genomes :
                        \E m \in BedVcfOps, pl \in Ploidies, hx \in Hapxs, fe \in Females :
                           r = BedVcfRec(m, pl, hx, fe, g, t)
 
-(* seg / jtv / cdt / nexus: files over three bins (two of them differing only in the gene), two  *)
+(* seg / jtv / cdt / nexus: files over four bins (two of them differing only in the gene), two   *)
 (* sample-level log2 bases, ids from {"A", "B"} (so ids repeat)                                  *)
-MBins(pfx) == {<<pfx, "1", 0, 50, "G">>, <<pfx, "X", 100, 200, "G">>, <<pfx, "X", 100, 200, "H">>}
-BinKey(b) == <<KindRank(ExKind(b[2])), b[3], b[4], IF b[5] = "G" THEN 0 ELSE 1>>
+MBins(pfx) == {<<pfx, "1", 0, 50, "G">>, <<pfx, "X", 100, 200, "G">>, <<pfx, "X", 100, 200, "H">>, <<pfx, "X", 300, 400, "G">>}
+BinKey(b) == <<KindRank(ExKind(b[2])), b[3], b[4]>>     \* the rows of one file are distinct regions, in order
 RECURSIVE SortedBinTabs(_, _)
 SortedBinTabs(bins, n) ==
     IF n = 0 THEN {<<>>}
     ELSE LET prev == SortedBinTabs(bins, n - 1)
              ext == {Append(t, b) : t \in {p \in prev : Len(p) = n - 1}, b \in bins}
-         IN prev \cup {t \in ext : Len(t) < 2 \/ TupLeq(BinKey(t[Len(t) - 1]), BinKey(t[Len(t)]), 1)}
+         IN prev \cup {t \in ext : Len(t) < 2 \/ (/\ TupLeq(BinKey(t[Len(t) - 1]), BinKey(t[Len(t)]), 1)
+                                                   /\ BinKey(t[Len(t) - 1]) # BinKey(t[Len(t)]))}
 MLgs == {-1234, 585}
 MTab(bt, lg0) == [j \in 1..Len(bt) |-> <<bt[j][1], bt[j][2], bt[j][3], bt[j][4], bt[j][5], 3 + j, 0, 1, 1, lg0 + 1000 * (j - 1)>>]
 MSampleSet(pfx) == {<<sid, MTab(bt, lg0)>> : sid \in {"A", "B"}, bt \in SortedBinTabs(MBins(pfx), MaxBins) \ {<<>>}, lg0 \in MLgs}
